@@ -160,6 +160,62 @@ class Facts:
         for b in self.bodies.values():
             if b.parent and b.promoted is None:
                 self._children.setdefault(b.parent, []).append(b)
+        self._disambiguate_upvars()
+
+    def _disambiguate_upvars(self):
+        """Edition-2021 closures capture disjoint fields (`p.row` and `p.column` are two captures of
+        the variable `p`): upvars named after the root variable then collide. Colliding names get
+        their capture index appended (`p#0`, `p#1`) in the closure aggregate and in the closure body's
+        projections alike."""
+        for b in self.bodies.values():
+            for blk in b.blocks:
+                for s in blk["stmts"]:
+                    if s["k"] != "assign":
+                        continue
+                    rv = s["rv"]
+                    if rv["k"] == "agg" and rv.get("agg") in ("closure", "coroutine", "coroutine_closure"):
+                        names = rv.get("fields") or []
+                        if len(set(names)) == len(names):
+                            continue
+                        dup = {n for n in names if names.count(n) > 1}
+                        rv["fields"] = ["%s#%d" % (n, i) if n in dup else n for i, n in enumerate(names)]
+                        cb = self.by_def.get(rv["path"])
+                        if cb is not None and not getattr(cb, "_upvars_renamed", False):
+                            cb._upvars_renamed = True
+                            self._rename_upvars(cb, dup)
+
+    def _rename_upvars(self, cb, dup):
+        def fix(place):
+            for e in place.get("p", []):
+                if isinstance(e, dict) and str(e.get("f", "")).startswith("upvar:") and e["f"][6:] in dup and place["l"] == 1:
+                    e["f"] = "%s#%d" % (e["f"], e.get("i", 0))
+
+        def fix_op(op):
+            pl = op.get("c") or op.get("m") if isinstance(op, dict) else None
+            if pl:
+                fix(pl)
+        for blk in cb.blocks:
+            for s in blk["stmts"]:
+                if s["k"] == "assign":
+                    fix(s["lhs"])
+                    rv = s["rv"]
+                    for k in ("op", "a", "b"):
+                        if isinstance(rv.get(k), dict):
+                            fix_op(rv[k])
+                    if "place" in rv:
+                        fix(rv["place"])
+                    for o in rv.get("ops", []) or []:
+                        fix_op(o)
+            t = blk["term"]
+            if t:
+                for k in ("op", "cond", "a", "b", "val"):
+                    if isinstance(t.get(k), dict):
+                        fix_op(t[k])
+                for a in t.get("args", []) or []:
+                    fix_op(a)
+                for k in ("place", "dest"):
+                    if isinstance(t.get(k), dict):
+                        fix(t[k])
 
     # ---------------------------------------------------------------- lookups
     def body(self, defpath):
